@@ -63,6 +63,8 @@ class Ctx:
         self.notes = {}
         self._open = load_known(prop_id)
         self._classifiers = classifiers or {}
+        self.hostile = None
+        self.replaying = False
 
     # --- observation bookkeeping -------------------------------------------------
     def ev(self, cls, n=1):
@@ -87,6 +89,10 @@ class Ctx:
     def violation(self, kind, case, detail):
         """Report a refuted execution.  `case` must be enough for replay (JSON-able)."""
         rec = {'kind': kind, 'case': case, 'detail': detail}
+        h = getattr(self, 'hostile', None)
+        if h is not None:
+            # the calling context the hostile layer had set up (vmon/hostile.py): which steps came before, how the call was made
+            rec['context'] = {'call': getattr(h, 'last', 'plain'), 'steps_before': list(h.trail)}
         for fid, pred in self._classifiers.items():
             if fid not in self._open:
                 continue
